@@ -551,4 +551,304 @@ theorem parseCmd_unknown {w : World} {i : Nat} {t : Trx} {req : List Str}
     rfl
   rw [parseCmd_eq, h1]
   simp only [applyPatch, ht, h2, applyAction, pure, Except.pure]
+/-! ### agreement with the documented semantics (Spec/Trxc.lean) -/
+
+/-- what the documented semantics may consult -/
+def viewOf (t : Trx) : Spec.Trxc.View :=
+  { running := t.running, rxTuned := t.rxFreq.isSome, txTuned := t.txFreq.isSome,
+    hopping := t.fh.isSome, hasPowerMeter := t.hasPm }
+
+theorem viewOf_ready (t : Trx) : (viewOf t).ready = t.ready := by
+  rw [ready_iff]; rfl
+
+/-- the world change and the result parameters that realise a documented effect on transceiver
+`i` (object `t`) of world `w` -/
+def Realises (w : World) (i : Nat) (t : Trx) (e : Spec.Trxc.Effect) (w' : World) (res : List Str) : Prop :=
+  match e with
+  | .none => w' = w ∧ res = []
+  | .powerOn => w' = powered w i t true ∧ res = []
+  | .powerOff => w' = powered w i t false ∧ res = []
+  | .rxFreq hz => w' = setTrx w i (fun t => { t with rxFreq := some hz }) ∧ res = []
+  | .txFreq hz => w' = setTrx w i (fun t => { t with txFreq := some hz }) ∧ res = []
+  | .hopping hsn maio ma =>
+    w' = setTrx w i (fun t =>
+      { t with fh := some (Hopping.HoppingParams.mk hsn maio ma (Hopping.powNbinMask ma.length)) }) ∧
+      res = []
+  | .format v => w' = setTrx w i (fun t => { t with hdrVer := v }) ∧ res = []
+  | .txAtt a => w' = setTrx w i (fun t => { t with txAttBase := a }) ∧ res = []
+  | .mute b => w' = setTrx w i (fun t => { t with rfMuted := b }) ∧ res = []
+  | .ta v => w' = setTrx w i (fun t => { t with ta := v }) ∧ res = []
+  | .toa b th => w' = setTrx w i (fun t => { t with toaBase := b, toaThr := th }) ∧ res = []
+  | .toaAdd d => w' = setTrx w i (fun t => { t with toaBase := t.toaBase + d }) ∧ res = []
+  | .rssi b th =>
+    w' = setTrx w i (fun t => { t with rssiBase := b, rssiThr := th, fakeRssi := true }) ∧ res = []
+  | .rssiOff => w' = setTrx w i (fun t => { t with fakeRssi := false }) ∧ res = []
+  | .rssiAdd d => w' = setTrx w i (fun t => { t with rssiBase := t.rssiBase + d }) ∧ res = []
+  | .ci b th => w' = setTrx w i (fun t => { t with ciBase := b, ciThr := th }) ∧ res = []
+  | .ciAdd d => w' = setTrx w i (fun t => { t with ciBase := t.ciBase + d }) ∧ res = []
+  | .drop n p => w' = setTrx w i (fun t => { t with dropAmount := n, dropPeriod := p }) ∧ res = []
+  | .delay ms => w' = setTrx w i (fun t => { t with rspDelay := ms }) ∧ res = []
+  | .measure hz =>
+    ∃ dbm, draw w.seed w.drawK (Spec.Trxc.measureRange (fakePmFound w.trxs hz)).1
+        (Spec.Trxc.measureRange (fakePmFound w.trxs hz)).2 = .ok dbm ∧
+      (Spec.Trxc.measureRange (fakePmFound w.trxs hz)).1 ≤ dbm ∧
+      dbm ≤ (Spec.Trxc.measureRange (fakePmFound w.trxs hz)).2 ∧
+      w' = { w with drawK := w.drawK + 1 } ∧ res = [intToStr dbm]
+  | .reportNomTxPower => w' = w ∧ res = [intToStr t.txPowerBase]
+
+theorem lit_inj {s t : String} (h : lit s = lit t) : s = t :=
+  String.toList_inj.mp ((List.map_inj_right (fun _ _ h => Char.toNat_inj.mp h)).mp h)
+
+theorem verifyCmd_lit (V : String) (args : List Str) (X : String) (k : Nat) (va : Bool) :
+    verifyCmd (lit V :: args) X k va =
+      (V == X && (if va then decide (k ≤ args.length) else args.length == k)) := by
+  simp only [verifyCmd]
+  by_cases hV : V = X
+  · subst hV
+    cases va
+    · by_cases hl : args.length = k <;> simp [hl]
+    · by_cases hl : k ≤ args.length
+      · simp [hl]
+      · have : args.length < k := by omega
+        simp [hl, this]
+  · have hne : lit V ≠ lit X := fun h => hV (lit_inj h)
+    simp [hV, hne]
+
+theorem notInTable_iff (V : String) (args : List Str) :
+    NotInTable (lit V :: args) ↔ ∀ r ∈ Spec.Trxc.table, r.matches V args.length = false := by
+  unfold NotInTable Spec.Trxc.signatures
+  simp only [List.mem_map, forall_exists_index, and_imp, forall_apply_eq_imp_iff₂, verifyCmd_lit,
+    Spec.Trxc.Row.matches]
+
+theorem semantics_unknown (v : Spec.Trxc.View) (V : String) (args : List Str) (vals : List Int)
+    (hl : args.length = vals.length) (h : NotInTable (lit V :: args)) :
+    Spec.Trxc.semantics v V vals = ⟨0, .none⟩ := by
+  have h' := (notInTable_iff V args).mp h
+  rw [hl] at h'
+  have : Spec.Trxc.table.find? (fun r => r.matches V vals.length) = none :=
+    List.find?_eq_none.mpr (fun r hr => by simp [h' r hr])
+  simp only [Spec.Trxc.semantics, this]
+theorem verify_lit0 {V X : String} {args : List Str} (hv : verifyCmd (lit V :: args) X 0 = true) :
+    V = X ∧ args = [] := by
+  have h := verifyCmd0 hv
+  simp only [List.cons.injEq] at h
+  exact ⟨lit_inj h.1, h.2⟩
+
+theorem verify_lit1 {V X : String} {args : List Str} (hv : verifyCmd (lit V :: args) X 1 = true) :
+    V = X ∧ ∃ a, args = [a] := by
+  obtain ⟨a, h⟩ := verifyCmd1 hv
+  simp only [List.cons.injEq] at h
+  exact ⟨lit_inj h.1, a, h.2⟩
+
+theorem verify_lit2 {V X : String} {args : List Str} (hv : verifyCmd (lit V :: args) X 2 = true) :
+    V = X ∧ ∃ a b, args = [a, b] := by
+  obtain ⟨a, b, h⟩ := verifyCmd2 hv
+  simp only [List.cons.injEq] at h
+  exact ⟨lit_inj h.1, a, b, h.2⟩
+
+theorem verify_lit4va {V X : String} {args : List Str}
+    (hv : verifyCmd (lit V :: args) X 4 true = true) :
+    V = X ∧ ∃ a b c d r, args = a :: b :: c :: d :: r := by
+  obtain ⟨a, b, c, d, r, h⟩ := verifyCmd4va hv
+  simp only [List.cons.injEq] at h
+  exact ⟨lit_inj h.1, a, b, c, d, r, h.2⟩
+
+theorem intArgs_one {a : Str} {vals : List Int} (h : IntArgs [a] vals) :
+    ∃ v, vals = [v] ∧ pyInt a = some v := by
+  obtain ⟨v, vs, rfl, hv, hr⟩ := intArgs_cons h
+  cases intArgs_nil_left hr
+  exact ⟨v, rfl, hv⟩
+
+theorem intArgs_two {a b : Str} {vals : List Int} (h : IntArgs [a, b] vals) :
+    ∃ v u, vals = [v, u] ∧ pyInt a = some v ∧ pyInt b = some u := by
+  obtain ⟨v, vs, rfl, hv, hr⟩ := intArgs_cons h
+  obtain ⟨u, rfl, hu⟩ := intArgs_one hr
+  exact ⟨v, u, rfl, hv, hu⟩
+
+/-- **`parse_cmd` implements the documented command table**: for every verb and every list of
+integer arguments the status is the documented one and the world change / result parameters
+realise the documented effect. -/
+theorem parseCmd_meets_spec {w : World} {i : Nat} {t : Trx} (ht : w.trxs[i]? = some t)
+    (V : String) (args : List Str) (vals : List Int) (ha : IntArgs args vals) :
+    ∃ w' res,
+      parseCmd w i (lit V :: args) =
+        .ok (w', ((Spec.Trxc.semantics (viewOf t) V vals).status, res)) ∧
+      Realises w i t (Spec.Trxc.semantics (viewOf t) V vals).effect w' res := by
+  by_cases hn : NotInTable (lit V :: args)
+  · rw [semantics_unknown _ V args vals (intArgs_length ha) hn]
+    exact ⟨w, [], parseCmd_unknown ht hn, rfl, rfl⟩
+  · have hex : ∃ s ∈ Spec.Trxc.signatures, verifyCmd (lit V :: args) s.1 s.2.1 s.2.2 = true := by
+      apply Classical.byContradiction
+      intro hc
+      apply hn
+      intro s hs
+      cases hv : verifyCmd (lit V :: args) s.1 s.2.1 s.2.2 with
+      | false => rfl
+      | true => exact absurd ⟨s, hs, hv⟩ hc
+    obtain ⟨s, hs, hv⟩ := hex
+    simp only [Spec.Trxc.signatures, Spec.Trxc.table, List.map_cons, List.map_nil, List.mem_cons,
+      List.not_mem_nil, or_false] at hs
+    rcases hs with rfl | rfl | rfl | rfl | rfl | rfl | rfl | rfl | rfl | rfl | rfl | rfl | rfl | rfl |
+      rfl | rfl | rfl | rfl | rfl | rfl
+    · -- POWERON
+      obtain ⟨rfl, rfl⟩ := verify_lit0 hv
+      cases intArgs_nil_left ha
+      have hs : Spec.Trxc.semantics (viewOf t) "POWERON" [] =
+          (if t.running then ⟨-1, .none⟩ else if !(viewOf t).ready then ⟨-1, .none⟩
+           else ⟨0, .powerOn⟩) := rfl
+      rw [hs, viewOf_ready]
+      cases hr : t.running with
+      | true => exact ⟨w, [], parseCmd_poweron_running ht hr, rfl, rfl⟩
+      | false =>
+        cases hrd : t.ready with
+        | false => exact ⟨w, [], parseCmd_poweron_notready ht hr hrd, rfl, rfl⟩
+        | true => exact ⟨_, [], parseCmd_poweron_ok ht hr hrd, rfl, rfl⟩
+    · -- POWEROFF
+      obtain ⟨rfl, rfl⟩ := verify_lit0 hv
+      cases intArgs_nil_left ha
+      exact ⟨_, [], parseCmd_poweroff ht, rfl, rfl⟩
+    · -- RXTUNE
+      obtain ⟨rfl, a, rfl⟩ := verify_lit1 hv
+      obtain ⟨v, rfl, hv⟩ := intArgs_one ha
+      exact ⟨_, [], parseCmd_rxtune ht hv, rfl, rfl⟩
+    · -- TXTUNE
+      obtain ⟨rfl, a, rfl⟩ := verify_lit1 hv
+      obtain ⟨v, rfl, hv⟩ := intArgs_one ha
+      exact ⟨_, [], parseCmd_txtune ht hv, rfl, rfl⟩
+    · -- MEASURE
+      obtain ⟨rfl, a, rfl⟩ := verify_lit1 hv
+      obtain ⟨v, rfl, hv⟩ := intArgs_one ha
+      have hs : Spec.Trxc.semantics (viewOf t) "MEASURE" [v] =
+          (if t.hasPm then ⟨0, .measure (v * 1000)⟩ else ⟨-1, .none⟩) := rfl
+      rw [hs]
+      cases hpm : t.hasPm with
+      | false => exact ⟨w, [], parseCmd_measure_nopm ht hpm, rfl, rfl⟩
+      | true =>
+        obtain ⟨dbm, hd, hlo, hhi, hp⟩ := parseCmd_measure ht hv hpm
+        rw [pmRange_spec] at hd hlo hhi
+        exact ⟨_, _, hp, dbm, hd, hlo, hhi, rfl, rfl⟩
+    · -- SETFH
+      obtain ⟨rfl, a, b, c, d, r, rfl⟩ := verify_lit4va hv
+      obtain ⟨hsn, vs1, rfl, hh, ha1⟩ := intArgs_cons ha
+      obtain ⟨maio, fvals, rfl, hm, hf⟩ := intArgs_cons ha1
+      obtain ⟨f1, vs3, rfl, _, ha3⟩ := intArgs_cons hf
+      obtain ⟨f2, vs4, rfl, _, _⟩ := intArgs_cons ha3
+      have hs : Spec.Trxc.semantics (viewOf t) "SETFH" (hsn :: maio :: f1 :: f2 :: vs4) =
+          (if 0 ≤ hsn ∧ hsn < 64 ∧ Spec.Trxc.pairsHz (f1 :: f2 :: vs4) ≠ [] then
+            ⟨0, .hopping hsn maio (Spec.Trxc.pairsHz (f1 :: f2 :: vs4))⟩ else ⟨-1, .none⟩) := rfl
+      rw [hs]
+      by_cases hr : 0 ≤ hsn ∧ hsn < 64
+      · rw [if_pos ⟨hr.1, hr.2, pairsHz_ne_nil _ _ _⟩]
+        exact ⟨_, [], parseCmd_setfh_ok ht hh hm hf hr, rfl, rfl⟩
+      · rw [if_neg (fun h => hr ⟨h.1, h.2.1⟩)]
+        exact ⟨w, [], parseCmd_setfh_badhsn ht hh hm hf (by omega), rfl, rfl⟩
+    · -- SETFORMAT
+      obtain ⟨rfl, a, rfl⟩ := verify_lit1 hv
+      obtain ⟨v, rfl, hv⟩ := intArgs_one ha
+      have hs : Spec.Trxc.semantics (viewOf t) "SETFORMAT" [v] =
+          (if v < 0 ∨ v > 15 then ⟨-1, .none⟩
+           else if Spec.Trxc.supportedVersions.contains v then ⟨v, .format v⟩
+           else ⟨Spec.Trxc.highestSupportedUpTo v, .none⟩) := rfl
+      rw [hs]
+      by_cases hr : v < 0 ∨ v > 15
+      · rw [if_pos hr]
+        exact ⟨w, [], parseCmd_setformat_range ht hv hr, rfl, rfl⟩
+      · rw [if_neg hr]
+        by_cases hk : v = 0 ∨ v = 1
+        · have hc : Spec.Trxc.supportedVersions.contains v = true := by
+            rcases hk with rfl | rfl <;> decide
+          rw [if_pos hc]
+          exact ⟨_, [], parseCmd_setformat_known ht hv hk, rfl, rfl⟩
+        · have hc : ¬ Spec.Trxc.supportedVersions.contains v = true := by
+            intro hc
+            simp [Spec.Trxc.supportedVersions] at hc
+            omega
+          have hh : Spec.Trxc.highestSupportedUpTo v = 1 := by
+            have : ∀ n : Fin 14, Spec.Trxc.highestSupportedUpTo ((n.val : Int) + 2) = 1 := by decide
+            have h2 := this ⟨(v - 2).toNat, by omega⟩
+            simp only at h2
+            rwa [show (((v - 2).toNat : Nat) : Int) + 2 = v by omega] at h2
+          rw [if_neg hc, hh]
+          exact ⟨w, [], parseCmd_setformat_unsupported ht hv (by omega), rfl, rfl⟩
+    · -- SETPOWER
+      obtain ⟨rfl, a, rfl⟩ := verify_lit1 hv
+      obtain ⟨v, rfl, hv⟩ := intArgs_one ha
+      exact ⟨_, [], parseCmd_setpower ht hv, rfl, rfl⟩
+    · -- NOMTXPOWER
+      obtain ⟨rfl, rfl⟩ := verify_lit0 hv
+      cases intArgs_nil_left ha
+      exact ⟨w, _, parseCmd_nomtxpower ht, rfl, rfl⟩
+    · -- RFMUTE
+      obtain ⟨rfl, a, rfl⟩ := verify_lit1 hv
+      obtain ⟨v, rfl, hv⟩ := intArgs_one ha
+      exact ⟨_, [], parseCmd_rfmute ht hv, rfl, rfl⟩
+    · -- SETTA
+      obtain ⟨rfl, a, rfl⟩ := verify_lit1 hv
+      obtain ⟨v, rfl, hv⟩ := intArgs_one ha
+      exact ⟨_, [], parseCmd_setta hv, rfl, rfl⟩
+    · -- FAKE_TOA base thr
+      obtain ⟨rfl, a, b, rfl⟩ := verify_lit2 hv
+      obtain ⟨base, thr, rfl, hb, hth⟩ := intArgs_two ha
+      have hs : Spec.Trxc.semantics (viewOf t) "FAKE_TOA" [base, thr] =
+          (if thr < 0 then ⟨-1, .none⟩ else ⟨0, .toa base thr⟩) := rfl
+      rw [hs]
+      by_cases h0 : thr < 0
+      · rw [if_pos h0]; exact ⟨w, [], parseCmd_fake_toa_neg hb hth h0, rfl, rfl⟩
+      · rw [if_neg h0]; exact ⟨_, [], parseCmd_fake_toa hb hth (by omega), rfl, rfl⟩
+    · -- FAKE_TOA delta
+      obtain ⟨rfl, a, rfl⟩ := verify_lit1 hv
+      obtain ⟨v, rfl, hv⟩ := intArgs_one ha
+      exact ⟨_, [], parseCmd_fake_toa_rel hv, rfl, rfl⟩
+    · -- FAKE_RSSI base thr
+      obtain ⟨rfl, a, b, rfl⟩ := verify_lit2 hv
+      obtain ⟨base, thr, rfl, hb, hth⟩ := intArgs_two ha
+      have hs : Spec.Trxc.semantics (viewOf t) "FAKE_RSSI" [base, thr] =
+          (if thr < 0 then ⟨0, .rssiOff⟩ else ⟨0, .rssi base thr⟩) := rfl
+      rw [hs]
+      by_cases h0 : thr < 0
+      · rw [if_pos h0]; exact ⟨_, [], parseCmd_fake_rssi_off hth h0, rfl, rfl⟩
+      · rw [if_neg h0]; exact ⟨_, [], parseCmd_fake_rssi hb hth (by omega), rfl, rfl⟩
+    · -- FAKE_RSSI delta
+      obtain ⟨rfl, a, rfl⟩ := verify_lit1 hv
+      obtain ⟨v, rfl, hv⟩ := intArgs_one ha
+      exact ⟨_, [], parseCmd_fake_rssi_rel hv, rfl, rfl⟩
+    · -- FAKE_CI base thr
+      obtain ⟨rfl, a, b, rfl⟩ := verify_lit2 hv
+      obtain ⟨base, thr, rfl, hb, hth⟩ := intArgs_two ha
+      have hs : Spec.Trxc.semantics (viewOf t) "FAKE_CI" [base, thr] =
+          (if thr < 0 then ⟨-1, .none⟩ else ⟨0, .ci base thr⟩) := rfl
+      rw [hs]
+      by_cases h0 : thr < 0
+      · rw [if_pos h0]; exact ⟨w, [], parseCmd_fake_ci_neg hb hth h0, rfl, rfl⟩
+      · rw [if_neg h0]; exact ⟨_, [], parseCmd_fake_ci hb hth (by omega), rfl, rfl⟩
+    · -- FAKE_CI delta
+      obtain ⟨rfl, a, rfl⟩ := verify_lit1 hv
+      obtain ⟨v, rfl, hv⟩ := intArgs_one ha
+      exact ⟨_, [], parseCmd_fake_ci_rel hv, rfl, rfl⟩
+    · -- FAKE_DROP n
+      obtain ⟨rfl, a, rfl⟩ := verify_lit1 hv
+      obtain ⟨n, rfl, hn'⟩ := intArgs_one ha
+      have hs : Spec.Trxc.semantics (viewOf t) "FAKE_DROP" [n] =
+          (if n < 0 then ⟨-1, .none⟩ else ⟨0, .drop n 1⟩) := rfl
+      rw [hs]
+      by_cases h0 : n < 0
+      · rw [if_pos h0]; exact ⟨w, [], parseCmd_fake_drop1_neg hn' h0, rfl, rfl⟩
+      · rw [if_neg h0]; exact ⟨_, [], parseCmd_fake_drop1 hn' (by omega), rfl, rfl⟩
+    · -- FAKE_DROP n period
+      obtain ⟨rfl, a, b, rfl⟩ := verify_lit2 hv
+      obtain ⟨n, per, rfl, hn', hp⟩ := intArgs_two ha
+      have hs : Spec.Trxc.semantics (viewOf t) "FAKE_DROP" [n, per] =
+          (if n < 0 ∨ per ≤ 0 then ⟨-1, .none⟩ else ⟨0, .drop n per⟩) := rfl
+      rw [hs]
+      by_cases h0 : n < 0
+      · rw [if_pos (.inl h0)]; exact ⟨w, [], parseCmd_fake_drop2_neg hn' h0, rfl, rfl⟩
+      · by_cases h1 : per ≤ 0
+        · rw [if_pos (.inr h1)]
+          exact ⟨w, [], parseCmd_fake_drop2_badperiod hn' hp (by omega) h1, rfl, rfl⟩
+        · rw [if_neg (by omega)]
+          exact ⟨_, [], parseCmd_fake_drop2 hn' hp (by omega) (by omega), rfl, rfl⟩
+    · -- FAKE_TRXC_DELAY
+      obtain ⟨rfl, a, rfl⟩ := verify_lit1 hv
+      obtain ⟨v, rfl, hv⟩ := intArgs_one ha
+      exact ⟨_, [], parseCmd_fake_trxc_delay ht hv, rfl, rfl⟩
 end OsmoVerif.World
